@@ -145,21 +145,30 @@ def intern(s):
 
 
 def s_leaves(term, limit=256):
-    """[(path condition, python str)] of an interned-string term (ite tree over numerals)"""
-    out = []
-
-    def walk(t, cond):
-        if len(out) > limit:
-            raise Unsupported("string term with more than %d alternatives" % limit)
+    """[(condition, python str)] of an interned-string term: one entry per distinct string id
+    that occurs as a leaf of the ite DAG (linear walk with memo), condition = (term == id)"""
+    ids = set()
+    seen = set()
+    stack = [term]
+    while stack:
+        t = stack.pop()
+        k = t.get_id()
+        if k in seen:
+            continue
+        seen.add(k)
         if z3.is_int_value(t):
-            out.append((cond, STR_BY_ID[t.as_long()]))
+            ids.add(t.as_long())
         elif z3.is_app_of(t, z3.Z3_OP_ITE):
-            walk(t.arg(1), band(cond, t.arg(0)))
-            walk(t.arg(2), band(cond, bnot(t.arg(0))))
+            stack.append(t.arg(1))
+            stack.append(t.arg(2))
         else:
             raise Unsupported("free string term (strings must come from concrete alternatives)")
-    walk(term, True)
-    return out
+        if len(ids) > limit:
+            raise Unsupported("string term with more than %d alternatives" % limit)
+    ids = sorted(ids)
+    if len(ids) == 1:
+        return [(True, STR_BY_ID[ids[0]])]
+    return [(term == i, STR_BY_ID[i]) for i in ids]
 
 
 class S:
